@@ -24,67 +24,67 @@ COMMON_NOTE = ("Theorems are about hand-written Gallina models (coq/<Area>/*Mode
                "compared with the Go implementation on generated inputs (correspondence), regenerated tables/facts are re-proved, and an "
                "implementation-side oracle evaluates the property on the Go code alone (failing-input search; reaches un-modelled glue).")
 
-prop("C01", design_ref="DESIGN.md 5 (C01)",
-     level_text="RLE: complete model of rle.go (encoder state machine, segment/plane mapping, header, decoder loop) with an independent PackBits/Annex G reader; theorems for all geometries and all byte strings (see evidence.coverage.theorems for exact status).",
+prop("C01", design_ref="DESIGN.md 5 (C01), Corrections",
+     level_text="Complete: faithful model of rle.go (encoder state machine, NextSegment/offsets incl. the 32-bit overflow check, plane mapping, header, decoder loop) and an independent PackBits/Annex G reader. Proved for every accepted geometry (npix any positive integer) and every byte string: encoder invariant, segment round trip, whole-frame round trip with pad byte, Annex G validity, independent reader recovers each plane, plane bijection, any legal packet split decodes. Unconditional on rle_encode = Ok.",
      level_note=COMMON_NOTE + " bytes.Buffer / binary.Write assumed to append.",
      trusted=["bytes.Buffer/binary.Write modelled as list append"])
-prop("C02", design_ref="DESIGN.md 5 (C02)",
-     level_text="JPEG Lossless/SV1: byte-exact model of encoder and decoder (predictors, category coder, optimal Huffman builder, stuffing, markers); category coder exhaustive over all 65536 differences, modulo-2^16 reconstruction, Huffman prefix decoding, stuffing round trip; whole-image round trip as far as listed in evidence (parts may be _partial).",
+prop("C02", design_ref="DESIGN.md 5 (C02), Corrections",
+     level_text="Byte-exact model of jpeg/lossless and lossless14sv1 (predictors, edge rule, category coder, optimal Huffman builder, canonical codes, uint32 bit writer/reader with stuffing, markers, decoder marker loop, Build, bit-serial decode). Proved: category coder over all 65536 differences, modulo-2^16 reconstruction for every prediction, Huffman prefix decoding for any valid table, min/max/valptr decoder = canonical decoder, stuffing round trip, Build never panics, whole-image round trip for predictors 0-7 and SV1 with geometry. Partial: the round trip carries the hypothesis that the table BuildOptimalHuffmanTable returns is a valid covering table (C02_build_table_ok is stated, not proved); the harness checks it on every DHT the Go encoder emits.",
      level_note=COMMON_NOTE)
-prop("C03", design_ref="DESIGN.md 5 (C03)",
-     level_text="JPEG-LS lossless: byte-exact model (parameters, Golomb, run mode, contexts, scan) and per-symbol exactness theorems for all precisions 2..16; whole-scan lockstep status in evidence.",
-     level_note=COMMON_NOTE + " GolombReader word cache modelled as bit list.")
-prop("C04", design_ref="DESIGN.md 5 (C04)",
-     level_text="JPEG 2000 reversible single tile: arithmetic/geometry stages proved exactly (sample codec, RCT, 5/3 DWT all sizes/levels/parities, band and code-block partitions); entropy/packet stages are tied by component theorems (MQ, T1, tag-tree where present) and decided end to end by the implementation-side round-trip oracle over the property's configuration space. Partial: T1/T2 transport is not a single end-to-end theorem.",
-     level_note=COMMON_NOTE + " Section hypotheses t1_rt/t2_rt where the pipeline theorem uses them.")
-prop("C05", design_ref="DESIGN.md 5 (C05)",
-     level_text="JPEG 2000 lossless syntaxes: theorem that for any allocation the final layer completes every code-block and that every accepted parameter object in the property's domain maps to that premise; rate-control internals are an arbitrary allocation in the theorem; end-to-end decided by the codec round-trip oracle over the parameter space.",
-     level_note=COMMON_NOTE + " Hook-based correspondence (build tag verif) for finalizeBlock and the parameter mapping.")
-prop("C06", design_ref="DESIGN.md 5 (C06)",
-     level_text="HTJ2K lossless: MEL/UVLC/VLC table and Kmax theorems over regenerated tables; the HT cleanup pass as a whole is not modelled, so the property level is partial: the round trip and the 14 third-party fixtures are decided by the implementation-side oracle.",
+prop("C03", design_ref="DESIGN.md 5 (C03), Corrections",
+     level_text="Complete at byte level: model of jpegls/lossless reproduces the Go encoder byte for byte; proved for every precision 2..16, 1 and 3 components, every image: decode(encode(img)) = img with geometry (through marker parsing and scan extraction), encoder totality, Golomb / run / run-interruption round trips, per-sample exactness with identical context updates, the as-coded 32-bit Golomb writer = bit-list packer, no-marker property.",
+     level_note=COMMON_NOTE + " GolombReader's 64-bit cache is modelled as a bit list (tied by the byte-exact correspondence).")
+prop("C04", design_ref="DESIGN.md 5 (C04), Corrections",
+     level_text="Partial by design: every arithmetic/geometry stage is modelled and proved for unbounded sizes (sample codec and pixel (de)interleaving, RCT, 5/3 DWT all sizes/levels/parities, band partition = DWT split, code-block partition, subband extraction/assembly) and the entropy stages by component theorems (MQ round trip unbounded, T1 lockstep unbounded, packet-header bit I/O no-marker); the T2 packet layer and rate control are not modelled, so the composition is not one end-to-end theorem: the round trip over the property's configuration space is decided by the implementation-side oracle (700 / 12000 configurations per run plus a corpus of earlier failures).",
+     level_note=COMMON_NOTE + " Hook-based correspondence (build tag verif) for geometry functions.")
+prop("C05", design_ref="DESIGN.md 5 (C05), Corrections",
+     level_text="Proved: for any block with non-decreasing pass rates and any monotone allocation the layers concatenate to the complete code-block data and the last layer holds all passes (both finalisers); for ANY allocation the last layer is complete; every parameter object in the property's domain maps (Validate + configureLosslessEncodeParams + initRDLayerConfig) to lossless with either one untruncated layer or >= 2 layers with the lossless layer forced. Monotonicity of the real allocators and rates_ok are checked at run time through hooks. End to end decided by the codec round-trip oracle over every rate-control path.",
+     level_note=COMMON_NOTE + " Rate-distortion optimiser is an arbitrary allocation in the theorem.")
+prop("C06", design_ref="DESIGN.md 5 (C06), Corrections",
+     level_text="Partial: MEL round trip (both coder pairs, any event list), UVLC and VLC exhaustive over regenerated tables, Scup, level clamp, Kmax sufficiency and encoder/packet/decoder consistency for every precision/level/band are proved; the HT cleanup pass as a whole (quad contexts, MagSgn exponent prediction) is NOT modelled, so the round trip and the 14 third-party fixtures are decided by the implementation-side oracle.",
      level_note=COMMON_NOTE)
-prop("C07", design_ref="DESIGN.md 5 (C07)",
-     level_text="JPEG-LS near-lossless: per-sample theorem |x'-x| <= NEAR, range, encoder/decoder reconstruction agreement for every NEAR and precision; byte-exact model; whole-scan status in evidence.",
+prop("C07", design_ref="DESIGN.md 5 (C07), Corrections",
+     level_text="Complete at byte level: for every precision, every NEAR in range and every image, decode(encode) is within NEAR, in range, reports NEAR and geometry; NEAR = 0 exact; encoder and decoder reconstructions coincide; byte-exact model of jpegls/nearlossless.",
      level_note=COMMON_NOTE)
-prop("C08", design_ref="DESIGN.md 5 (C08)",
-     level_text="No decoder panics: panic-explicit models of the header parsers with no-panic theorems for all byte strings (list in evidence), MQ decoder bounds; entropy-decoder inner loops and tile decoding are searched (mutation corpus in child processes), not proved. Partial.",
+prop("C08", design_ref="DESIGN.md 5 (C08), Corrections",
+     level_text="Partial: for ALL byte strings the modelled header paths (both JPEG-LS decoders, jpeg/lossless, SV1, baseline up to the first block, the JPEG 2000 main header, tile-part parser and tile assembler, RLE with arbitrary FrameInfo, Huffman Build) never panic and never run out of fuel; MQ decoder and raw reader never read out of bounds for any data and any interleaving. Entropy decoders' inner loops, T2 and tile decoding are searched (about 130000 mutated streams per run in child processes), not proved.",
      level_note=COMMON_NOTE + " Child processes with watchdog; a fatal abort counts as failure.")
-prop("C09", design_ref="DESIGN.md 5 (C09)",
-     level_text="Bounded decode: fuel/allocation theorems for the modelled parsers (every loop consumes input; allocation requests bounded by declared size); wall time and heap are measured per decode in child processes. Partial: the theorem is about iteration counts and requested sizes, not about the Go runtime.",
-     level_note=COMMON_NOTE + " Watchdog 10 s, heap budget 512 MiB + 64*S.")
-prop("C10", design_ref="DESIGN.md 5 (C10)",
-     level_text="Codec contract: theorems over all histories for the frame-loop shapes and the field-dataflow summaries of Encoder/Decoder; regenerated write/read-site facts must be covered by the summaries (re-proved every run); per-frame codec functions are abstract; histories on real objects are searched.",
-     level_note=COMMON_NOTE + " Fact extractor (go/parser+go/types) is trusted to see every write.")
-prop("C11", design_ref="DESIGN.md 5 (C11)",
-     level_text="JPEG DCT loss bound: quantiser error, table ranges for all qualities (regenerated), DQT written = used, zig-zag, linear bound over Q and its 8x8 IDCT instantiation over R; the coded integer DCT/IDCT pair's deviation from an exact inverse pair is an explicit hypothesis (_partial); the bound itself is evaluated on every case by the oracle with DQT parsed from the stream.",
-     level_note=COMMON_NOTE + " Theorems over R use the standard library Reals axioms (listed in print_assumptions).")
-prop("C12", design_ref="DESIGN.md 5 (C12)",
-     level_text="JPEG 2000 irreversible bound: step-size field round trip, dead-zone error, linear bound, clamp; the float 9/7 and ICT kernels enter as Section hypotheses (partial); the declared-step bound is evaluated per sample by the oracle through an independent float64 inverse 9/7.",
+prop("C09", design_ref="DESIGN.md 5 (C09), Corrections",
+     level_text="Partial: proved for all byte strings that every modelled parser loop consumes input (fuel = input length suffices) and that every allocation request is bounded by c*S + 2*len + const with S the size declared by the first frame header of the stream (the same walker the oracle uses); RLE allocation <= 15*65535^2+1. Wall time and heap are measured per decode in child processes (10 s, 512 MiB + 64*S); the Go runtime is not modelled.",
      level_note=COMMON_NOTE)
-prop("C13", design_ref="DESIGN.md 5 (C13)",
-     level_text="JPEG Lossless vs T.81: independent Annex H codec written from the standard; code model = T.81 model theorems per predictor; cross-decoding Go <-> T.81 model on generated conformant streams (table ids 0-3, table kinds, DHT placement).",
+prop("C10", design_ref="DESIGN.md 5 (C10), Corrections",
+     level_text="Proved over all histories: one output frame per input frame in order for both frame-loop shapes; for a call summary that is self-initialising the output is a function of the arguments only; the hand summaries of jpeg2000.Encoder/Decoder are self-initialising and cover every field write/read the regenerated facts report (re-proved on every run). Per-frame codec functions are abstract (C01-C07). Histories on real objects, input immutability, decoded lengths are searched over all 14 syntaxes. One known finding (F27).",
+     level_note=COMMON_NOTE + " The fact extractor (go/parser + go/types) is trusted to see every write; reflection/unsafe are absent.")
+prop("C11", design_ref="DESIGN.md 5 (C11), Corrections",
+     level_text="Proved: coded quantiser error <= d/2 (8- and 12-bit), every scaled table entry in 1..255 for quality 1..100 (regenerated tables), DQT written = parsed, zig-zag permutation, the linear bound over Q and its instantiation to the exact IDCT basis over R, block-grid correctness for every sampling factor. Partial: the end-to-end per-sample theorem keeps the coded integer DCT/IDCT pair's deviation from an exact inverse pair as explicit hypotheses (a triangle-inequality proof cannot fit the allowance of 2); the bound is evaluated on every case by the oracle with DQT parsed from the stream.",
+     level_note=COMMON_NOTE + " Theorems over R use the standard library's axioms ClassicalDedekindReals.sig_not_dec, sig_forall_dec and FunctionalExtensionality.functional_extensionality_dep (listed in print_assumptions).",
+     trusted=["Coq standard library Reals axioms: ClassicalDedekindReals.sig_not_dec, ClassicalDedekindReals.sig_forall_dec, FunctionalExtensionality.functional_extensionality_dep (only the four C11 theorems over R)"])
+prop("C12", design_ref="DESIGN.md 5 (C12), Corrections",
+     level_text="Proved: QCD step field round trip (all 32x2048 field pairs) and one-ulp accuracy, dead-zone error <= D for the mathematical and the as-coded quantiser, linear bound, clamp. Partial: the float 9/7 analysis/synthesis pair and ICT enter as named hypotheses; the declared-step bound is evaluated per sample by the oracle through an independent float64 inverse 9/7 with exact absolute response sums.",
      level_note=COMMON_NOTE)
-prop("C14", design_ref="DESIGN.md 5 (C14)",
-     level_text="JPEG-LS vs T.87: coded parameters = standard's formulas over the whole (P,NEAR) domain, independent T.87 decoder agrees on every generated stream, lossless = near(0) byte identity, H.3 vector.",
+prop("C13", design_ref="DESIGN.md 5 (C13), Corrections",
+     level_text="Proved: the code's prediction is the T.81 H.1.2.1 rule; Annex C codes = BuildHuffmanCodes; model encoder and an independent T.81 encoder emit identical bytes for predictors 1-7; the independent T.81 decoder returns the exact source from the library encoders' streams; the library decoders recover the source from T.81-encoder streams for any predictor and any valid covering table in the single-table configuration. Arbitrary Td assignment / DHT placement / extra segments are stated and exercised by the cross-decoding runs only.",
      level_note=COMMON_NOTE)
-prop("C15", design_ref="DESIGN.md 5 (C15)",
-     level_text="JPEG DCT vs independent JPEG: theorem content is geometry (block grid for all sampling factors), Huffman table validity and entropy-layer facts; the agreement itself compares two implementations (image/jpeg and a reference encoder in the harness) and is labelled as such.",
+prop("C14", design_ref="DESIGN.md 5 (C14), Corrections",
+     level_text="Proved: coded parameters = T.87 formulas over the whole (P,NEAR) domain; lossless = near(0) as functions on whole images; both cross-decoding directions; H.3 vector; symbol-level round trips of the independent T.87 decoder against the coded encoder (Golomb, regular sample, run length, run interruption). Partial: whole-stream agreement of the independent T.87 decoder with the library decoder is a stated Definition with building-block lemmas; the extracted T.87 decoder is run on every generated stream.",
      level_note=COMMON_NOTE)
-prop("C16", design_ref="DESIGN.md 5 (C16)",
-     level_text="Well-formed codestreams: strict walkers written from the standards (extracted and run on every emitted stream of every encoder), segment-length / stuffing / no-marker theorems for the writers incl. the MQ coder invariant.",
+prop("C15", design_ref="DESIGN.md 5 (C15), Corrections",
+     level_text="Theorem content: block-grid and pixel-read correctness for every sampling factor and size, restart-interval bookkeeping (segments split at RSTn, MCU k uses interval k/Ri, DC reset), standard Huffman table validity, zig-zag. The agreement with image/jpeg and a reference encoder compares two implementations and is labelled as such (oracle).",
      level_note=COMMON_NOTE)
-prop("C17", design_ref="DESIGN.md 5 (C17)",
-     level_text="Encoder guards: accepts(a) -> representable(a) per encoder over the argument tuples, model guards compared with Go on enumerated tuples around every limit; never-panic and geometry-of-returned-stream are oracle checks.",
+prop("C16", design_ref="DESIGN.md 5 (C16), Corrections",
+     level_text="Strict walkers written from the standards (T.81, T.87, 15444-1 Annex A) are extracted and run on every emitted stream of every encoder. Proved for all inputs: WriteSegment framing, Huffman and packet-header bit writers never emit an unescaped marker, MQ encoder invariant and no-marker (Flush, ErtermEnc, bypass segments), header fields round trip, every accepted argument tuple's header declares exactly the arguments, whole JPEG Lossless frames are well formed. One known finding (F35).",
+     level_note=COMMON_NOTE + " bioWriter is unexported: its model is tied by the walker run over real streams.")
+prop("C17", design_ref="DESIGN.md 5 (C17), Corrections",
+     level_text="Proved per encoder and per registry codec: accepts(a) -> representable(a) for the guards as coded (unconditional for baseline, extended, lossless, SV1, JPEG-LS lossless, RLE for every uint16 FrameInfo, jpeg2000 under type-size limits); model guards agree with Go on every enumerated tuple around every limit. Two known findings (F33 NEAR bound pinned by the repository's own test, F34 Validate normalises).",
      level_note=COMMON_NOTE)
-prop("C18", design_ref="DESIGN.md 5 (C18)",
-     level_text="Concurrency: non-interference theorem for any number of threads and any schedule when no step writes shared state, with the premise discharged over regenerated write-site facts (no package-level writes outside init, no Codec receiver writes, parameter objects written only under an already-valid guard); race-detector stress is a schedule sample.",
-     level_note=COMMON_NOTE + " The Go scheduler/runtime is not modelled.")
-prop("C19", design_ref="DESIGN.md 5 (C19)",
-     level_text="JPEG 2000 tiled: tile partition/assembly and origin-parity band geometry proved for all sizes; 5/3 DWT inverse for every origin parity; end to end decided by the tiled round-trip oracle (1..12 tiles per axis, odd sizes, layers, global PCRD).",
+prop("C18", design_ref="DESIGN.md 5 (C18), Corrections",
+     level_text="Proved: for any number of threads and any schedule, if no step writes shared state every thread's result equals its result alone and no accesses conflict; the premise is discharged on every run over regenerated facts: no package-level variable is written outside init (allow-list inspected and pinned), no Codec method writes a receiver field, parameter objects are written only under already-valid guards. The race-detector stress over all 14 codecs is a schedule sample.",
+     level_note=COMMON_NOTE + " The Go scheduler/runtime is not modelled; a shared parameters object with streams of a different NEAR still writes (documented limit).")
+prop("C19", design_ref="DESIGN.md 5 (C19), Corrections",
+     level_text="Proved for all sizes: encoder, TileLayout and tile-decoder rectangles coincide, tiles are non-empty, disjoint and cover the image, extraction + assembly is the identity, origin-aware band geometry = DWT split, 5/3 inverse for every origin. End to end (T2 with tiles, global PCRD) decided by the tiled round-trip oracle incl. a corpus of the five earlier failure classes.",
      level_note=COMMON_NOTE)
-prop("C20", design_ref="DESIGN.md 5 (C20)",
-     level_text="RCT inverse (all integers; int32 within +-2^28) and 5/3 DWT inverse (1-D all lengths and parities, 2-D, multilevel any origin) fully proved; MQ: table well-formedness, encoder invariants/no-marker, decoder bounds, round trip as listed (bounded or partial parts named); T1: LUT = Annex D, lockstep as listed.",
-     level_note=COMMON_NOTE + " int32 wrap written explicitly in the RCT model; DWT theorems over Z with a growth lemma.",
-     trusted=["Go int32 arithmetic is modelled with explicit wrapS 32 in the RCT model; DWT/MQ models over Z with stated range hypotheses"],
-     assumptions=["model = code shown only on the generated cases (byte/integer-exact comparison)"],
-     explanation="see theorems list")
+prop("C20", design_ref="DESIGN.md 5 (C20), Corrections",
+     level_text="Complete for RCT (all integers; int32 within +-2^28), 5/3 DWT (1-D every length and parity, 2-D, multilevel any origin), MQ (unbounded round trip for any decision sequence and initial contexts, encoder invariant, decoder bounds) and T1 at symbol level (unbounded lockstep for every block size, orientation, style word and pass count; LUTs = Annex D over all entries). The byte-level composition T1 = lockstep + MQ/raw transport under every termination mode is a stated Definition decided on bounded domains by computation and by the byte-exact correspondence.",
+     level_note=COMMON_NOTE + " int32 wrap written explicitly in the RCT model; DWT over Z with a growth lemma.",
+     trusted=["Go int32 arithmetic is modelled with explicit wrapS 32 in the RCT model; DWT/MQ/T1 models over Z with stated range hypotheses"],
+     assumptions=["model = code shown only on the generated cases (byte/integer-exact comparison)"])
